@@ -190,6 +190,17 @@ func (t *SessionTeardown) HandleClientPADT(session *Session, clientMAC net.Hardw
 
 // TerminateSession initiates server-side session termination
 func (t *SessionTeardown) TerminateSession(session *Session, cause TerminateCause, errorMessage string) error {
+	// A caller that works from a list taken earlier (TerminateAll,
+	// TerminateByUsername) or that looked the session up a moment ago may hold
+	// a session another path has ended meanwhile: there is nobody left to send
+	// a Terminate-Request or PADT to, and nothing to wait for
+	if session.isTornDown() {
+		t.logger.Debug("Session already torn down, not terminating it again",
+			zap.Uint16("session_id", session.ID),
+		)
+		return nil
+	}
+
 	t.logger.Info("Server-initiated session termination",
 		zap.Uint16("session_id", session.ID),
 		zap.String("username", session.Username),
